@@ -284,11 +284,11 @@ void harness_label_limit(void)
 	if (C36_MID) { name[C36_LBL] = '.'; name[C36_LBL + 1] = 'b'; }
 	name[n] = 0;
 	r = dnsname_to_labels(buf, sizeof(buf), 0, name, (size_t)n, NULL);
-	if (C36_LBL > 63) {
-		VP_ASSERT(r == -1, "C36: a label of 64 octets was encoded (length octet 0x40 is not a valid label length)");
-		VP_WITNESS("64-octet label refused or encoded");
-		return;
-	}
+#if C36_LBL > 63
+	VP_ASSERT(r == -1, "C36: a label of 64 octets was encoded (length octet 0x40 is not a valid label length)");
+	VP_WITNESS("64-octet label refused or encoded");
+	(void)i;
+#else
 	VP_ASSERT(r == n + 2, "C36: a name with a 63-octet label was refused or mis-sized");
 	if (r != n + 2) return;
 	VP_ASSERT(buf[0] == C36_LBL, "C36: length octet of the 63-octet label");
@@ -296,4 +296,5 @@ void harness_label_limit(void)
 	if (C36_MID) VP_ASSERT(buf[1 + C36_LBL] == 1 && buf[2 + C36_LBL] == 'b' && buf[3 + C36_LBL] == 0, "C36: second label / terminator");
 	else VP_ASSERT(buf[1 + C36_LBL] == 0, "C36: terminator");
 	VP_WITNESS("63-octet label encoded");
+#endif
 }
